@@ -69,7 +69,7 @@ def pre_build():
 
 
 def cases(rng, tier):
-    return S.gen_cases(rng, tier, 480 if tier == "quick" else 2800)
+    return S.gen_cases(rng, tier, 480 if tier == "quick" else 2400)
 
 
 def search_cases(rng, tier):
